@@ -109,6 +109,7 @@ func (p persistence) LoadFanPwmData(fan fans.Fan) (map[int]float64, error) {
 	key := fan.GetId()
 
 	var fanCurveDataMap map[int]float64
+	discarded := false
 	err = db.Update(func(tx *bolt.Tx) error {
 		b := tx.Bucket([]byte(BucketFans))
 		if b == nil {
@@ -127,11 +128,17 @@ func (p persistence) LoadFanPwmData(fan fans.Fan) (map[int]float64, error) {
 			if err != nil {
 				ui.Error("Unable to delete corrupt data key %s: %v", key, err)
 			}
+			discarded = true
 			return nil
 		}
 
 		return err
 	})
+
+	if err == nil && discarded {
+		// the undecodable entry is gone now: there is no data for this fan
+		return nil, os.ErrNotExist
+	}
 
 	return fanCurveDataMap, err
 }
@@ -208,6 +215,7 @@ func (p persistence) LoadFanPwmMap(fanId string) (map[int]int, error) {
 	key := fanId
 
 	var pwmMap map[int]int
+	discarded := false
 	err = db.Update(func(tx *bolt.Tx) error {
 		b := tx.Bucket([]byte(BucketFanPwmMap))
 		if b == nil {
@@ -226,11 +234,17 @@ func (p persistence) LoadFanPwmMap(fanId string) (map[int]int, error) {
 			if err != nil {
 				ui.Error("Unable to delete corrupt data key %s: %v", key, err)
 			}
+			discarded = true
 			return nil
 		}
 
 		return err
 	})
+
+	if err == nil && discarded {
+		// the undecodable entry is gone now: there is no pwm map for this fan
+		return nil, os.ErrNotExist
+	}
 
 	return pwmMap, err
 }
